@@ -3,7 +3,7 @@
    (+ VM/SortLemmas.v), concrete witnesses in VM/Witness.v and VM/NonVac.v. *)
 From Coq Require Import String List.
 From NV Require Import Base.Show VM.Value VM.Ast VM.Bytecode VM.Compile VM.Machine VM.RefSem VM.Exec
-     VM.Proofs VM.Witness VM.NonVac.
+     VM.Proofs VM.ProofsErr VM.Witness VM.NonVac.
 
 (* MAIN THEOREM — whole programs.  For every instance of the primitive operations,
    every program p of the modelled language (let with shadowing, fn with parameters and
@@ -34,6 +34,21 @@ Theorem C09_no_stuck_partial :
               \/ Machine.run O (compile (procs O) p) m = Ok (out, v).
 Proof. exact @no_panic_after_ok. Qed.
 Print Assumptions C09_no_stuck_partial.
+
+(* PARTIAL errors: a runtime error of the reference semantics is the machine's error, same
+   kind.  Partial because (1) struct LITERALS are excluded (run_checked_nostruct evaluates
+   them to Wrong): the implementation evaluates the fields in reverse definition order, so
+   with two failing fields — or a failing and a diverging one — it reports a different
+   outcome than source order would; (2) format specifiers are assumed total, because
+   JoinString formats the parts after ALL of them have been evaluated, last to first. *)
+Theorem C09_errors_partial :
+  forall (Q : Type) (O : ops Q) (p : program Q) (n : nat) e,
+    (forall spec v, exists s, fmt_spec O spec v = Ok s) ->
+    compile_ok (compile (procs O) p) = true ->
+    run_checked_nostruct O n p = Err e ->
+    exists m, Machine.run O (compile (procs O) p) m = Err e.
+Proof. exact @compile_errors. Qed.
+Print Assumptions C09_errors_partial.
 
 (* The simulation behind the main theorem, for every expression in every context (any
    chunk, ip, fp, frames below, temporaries on the stack): if the reference evaluation
